@@ -33,7 +33,8 @@ REQUIRED = ["contract:Assertion.set_p_values", "contract:Audit.summarize_status"
             "test_objects_hold_another_bound_before_call", "tests_configured_with_random_order_false",
             "mixed_audit_polling_contest_among_comparison_contests", "status_asked_for_copied_contests_with_other_limits",
             "reset_from_a_state_with_p_values_but_empty_histories",
-            "status_asked_with_a_limit_within_one_ulp_of_the_measured_risk", "sampled_cards_with_the_contest_outside_its_own_sample_seen"]
+            "status_asked_with_a_limit_within_one_ulp_of_the_measured_risk", "sampled_cards_with_the_contest_outside_its_own_sample_seen",
+            "status_asked_after_p_values_changed_without_a_new_evaluation"]
 ASSUMPTIONS = ["samples have at least one observation per assertion", "summarize_status prints: stdout is swallowed, not parsed"]
 N_CASES = {"quick": 9600, "thorough": 80000}
 
@@ -320,6 +321,21 @@ def run_case(es, rec):
                 if not ok:
                     return
                 ok, done = rec.guard("c09.call:summarize_status", audit.summarize_status, sim.contests)
+            if rng.random() < 0.25:
+                # the assertions' p-values changed since set_p_values last ran (assertions rebuilt after the candidate list
+                # was amended: new objects start at 1; or values restored from a saved log): the status is about the
+                # p-values the assertions hold NOW, not about anything recorded at the last evaluation
+                cid_ = rng.choice(sorted(sim.contests))
+                con_ = sim.contests[cid_]
+                keep = {n_: a_.p_value for n_, a_ in con_.assertions.items()}
+                for a_ in con_.assertions.values():
+                    a_.p_value = rng.choice((1.0, 1.0, con_.risk_limit / 2, min(1.0, con_.risk_limit * 2)))
+                rec.count("status_asked_after_p_values_changed_without_a_new_evaluation")
+                ok, _ = rec.guard("c09.call:summarize_status", audit.summarize_status, sim.contests)
+                for n_, a_ in con_.assertions.items():
+                    a_.p_value = keep[n_]
+                if not ok:
+                    return
             if rng.random() < 0.4:
                 if rng.random() < 0.4:
                     # a state a risk function that reports no history leaves behind (or p-values and flags set through
